@@ -450,7 +450,7 @@ def main(prop, tier):
     sd = seed()
     rng = random.Random(sd)
     C = CONSTS["thorough" if thorough else "quick"]
-    limit = (48 << 20) if thorough else (1 << 20)
+    limit = (16 << 20) if thorough else (1 << 20)
 
     # ---- (1) model checking + export, concurrently with the build ---------------------------------------------------
     def run_mc(kind):
